@@ -324,12 +324,15 @@ def run(ctx):
         else:
             mout, mvals = dec_model(o, len(sched))
         hung = [j for j, x in enumerate(out) if x[0] == 'HANG']
+        agrees = True
         if hung:
             # the model runs out of fuel (state FAILED) exactly where the implementation stops returning
             if mout is None or mout[:hung[0]] != out[:hung[0]] or mout[hung[0]][0] != 6:
+                agrees = False
                 ndis += 1
                 first = first or dict(desc, impl='load() hangs at call %d' % hung[0], model=repr(mout)[:300])
         elif mout != out or mvals != vals:
+            agrees = False
             ndis += 1
             if first is None:
                 k = next((j for j, (a, b) in enumerate(zip(mout or [], out)) if a != b), None)
@@ -340,7 +343,9 @@ def run(ctx):
         v = oracle(files, look, limit, sched, out, vals)
         if v:
             msg, key = v
-            if key:
+            # the recorded findings are behaviours of the faithful model (theorems C18_exactly_once_refuted_*): a failure that the model
+            # of the unchanged loader does not reproduce step by step is not one of them, whatever its shape
+            if key and agrees:
                 nknown += 1
                 ctx.violation(dict(desc, states=[ST.get(x[0], x[0]) for x in out], events=[x[1] for x in out]), msg, known_key=key)
             else:
